@@ -1,0 +1,96 @@
+//! Observation hooks for external verification machinery.
+//!
+//! This module only exists with **crate feature** `verif-hooks`. It adds read-only views of
+//! values that never leave the trainer: the quantised coefficients the learner produced and the
+//! examples handed to the learner. Nothing here changes the behaviour of the library.
+
+use core::cell::RefCell;
+
+use alloc::string::String;
+use alloc::vec::Vec;
+
+/// A training feature decoded into plain data.
+#[derive(Clone, Debug, Eq, Hash, Ord, PartialEq, PartialOrd)]
+pub enum HookFeature {
+    /// Character n-gram at a relative position.
+    CharNgram {
+        /// The n-gram.
+        ngram: String,
+        /// Relative position used by the trainer.
+        rel_position: isize,
+    },
+    /// Character type n-gram at a relative position.
+    TypeNgram {
+        /// The n-gram (character type codes).
+        ngram: Vec<u8>,
+        /// Relative position used by the trainer.
+        rel_position: isize,
+    },
+    /// Dictionary word feature.
+    DictWord {
+        /// Length bucket.
+        length: usize,
+        /// 0: left, 1: inside, 2: right.
+        position: u8,
+    },
+}
+
+/// Quantised classifier of one tag category of one token.
+#[derive(Clone, Debug, Default)]
+pub struct TagClassifierRecord {
+    /// Token surface.
+    pub token: String,
+    /// Index of the tag category.
+    pub category: usize,
+    /// Candidate tags of the category in class order.
+    pub candidates: Vec<String>,
+    /// (class, quantised bias)
+    pub biases: Vec<(usize, i32)>,
+    /// (feature, class, quantised weight), including zero weights.
+    pub weights: Vec<(HookFeature, usize, i32)>,
+}
+
+/// Everything recorded during one call of `Trainer::train`.
+#[derive(Clone, Debug, Default)]
+pub struct TrainRecord {
+    /// Quantised bias of the boundary classifier.
+    pub bias: Option<i32>,
+    /// (feature, quantised weight) of the boundary classifier, including zero weights.
+    pub boundary_weights: Vec<(HookFeature, i32)>,
+    /// Tag classifiers.
+    pub tag_classifiers: Vec<TagClassifierRecord>,
+}
+
+/// One example handed to the boundary learner.
+#[derive(Clone, Debug)]
+pub struct ExampleRecord {
+    /// Label value given to the learner.
+    pub label: f64,
+    /// Features with their values, sorted.
+    pub features: Vec<(HookFeature, f64)>,
+}
+
+thread_local! {
+    static RECORD: RefCell<TrainRecord> = RefCell::new(TrainRecord::default());
+}
+
+/// Takes the record of the last training run on this thread and resets it.
+pub fn take_train_record() -> TrainRecord {
+    RECORD.with(|r| core::mem::take(&mut *r.borrow_mut()))
+}
+
+pub(crate) fn reset() {
+    RECORD.with(|r| *r.borrow_mut() = TrainRecord::default());
+}
+
+pub(crate) fn record_bias(bias: i32) {
+    RECORD.with(|r| r.borrow_mut().bias = Some(bias));
+}
+
+pub(crate) fn record_boundary_weight(feature: HookFeature, weight: i32) {
+    RECORD.with(|r| r.borrow_mut().boundary_weights.push((feature, weight)));
+}
+
+pub(crate) fn record_tag_classifier(rec: TagClassifierRecord) {
+    RECORD.with(|r| r.borrow_mut().tag_classifiers.push(rec));
+}
